@@ -371,6 +371,8 @@ func (m *M) xClass(class string) []byte {
 	case "boundary":
 		x, _, _ := m.boundaryPoint()
 		return be32(x)
+	case "limbwise_p":
+		return be32(m.limbwiseNeighbour(bigP))
 	case "structured":
 		x, _, cls := m.structuredPoint()
 		m.class("structured:" + cls)
@@ -388,8 +390,8 @@ func (m *M) xClass(class string) []byte {
 }
 
 var xClasses = []string{"zero", "one", "small_on", "small_off", "p_minus_1", "p", "p_plus_1", "on_curve_plus_p",
-	"max", "random_on", "random_on", "random_off", "boundary", "boundary", "small_y", "structured", "structured", "structured"}
-var yClasses = []string{"right", "other_root", "y_plus_p", "random", "ge_p", "zero"}
+	"max", "random_on", "random_on", "random_off", "boundary", "boundary", "small_y", "structured", "structured", "structured", "limbwise_p", "limbwise_p"}
+var yClasses = []string{"right", "other_root", "y_plus_p", "random", "ge_p", "zero", "near_miss", "near_miss", "limbwise_p"}
 var prefixes = []byte{0, 1, 2, 3, 4, 5, 6, 7, 0xff}
 
 func (m *M) yFor(xb []byte, class string) []byte {
@@ -419,6 +421,36 @@ func (m *M) yFor(xb []byte, class string) []byte {
 		return be32(new(big.Int).Add(bigP, big.NewInt(int64(m.rng.Intn(1000)))))
 	case "zero":
 		return make([]byte, 32)
+	case "limbwise_p":
+		return be32(m.limbwiseNeighbour(bigP))
+	case "near_miss":
+		// NOT on the curve, but y^2 and x^3+7 differ, in their stored (Montgomery) form, in ONE limb / one bit only
+		if x.Cmp(bigP) < 0 {
+			g := new(big.Int).Exp(x, big.NewInt(3), bigP)
+			g.Add(g, big7).Mod(g, bigP)
+			for try := 0; try < 20; try++ {
+				var dm *big.Int
+				if m.rng.Intn(2) == 0 {
+					dm = new(big.Int).Lsh(new(big.Int).SetUint64(m.rng.Uint64()|1), uint(64*m.rng.Intn(4)))
+				} else {
+					dm = new(big.Int).Lsh(one, uint(m.rng.Intn(256)))
+				}
+				gm := mulmod(g, bigR, bigP) // stored form of g
+				if m.rng.Intn(2) == 0 {
+					gm.Xor(gm, dm)
+				} else {
+					gm.Add(gm, dm)
+				}
+				gm.Mod(gm, bigR)
+				if gm.Cmp(bigP) >= 0 {
+					continue
+				}
+				v := mulmod(gm, rInvP, bigP)
+				if yy := new(big.Int).ModSqrt(v, bigP); yy != nil && v.Cmp(g) != 0 {
+					return be32(yy)
+				}
+			}
+		}
 	}
 	return be32(m.randBig(bigP))
 }
